@@ -173,7 +173,7 @@ def variant_term():
     if VARIANTS is None:
         VARIANTS = measure_variants()
     v = VARIANTS
-    return '(mkVar %s %s %s)' % (C.b(v['grow']), C.b(v['negaxis']), C.b(v['boolouter']))
+    return '(mkVar %s)' % C.b(v['grow'])
 
 
 # ------------------------------------------------------------------ a call
@@ -1315,6 +1315,12 @@ def legacy_key(spec, cat):
     uf = getattr(np, spec['ufunc'], None)
     uf = uf if isinstance(uf, np.ufunc) else None
     if sk == 'pow' and uf is not None and uf.nout == 2 and cat == 'raises':
+        base = spec['space']
+        while base['kind'] == 'pow':
+            base = base['base']
+        if np.dtype(base['dtype']).kind in 'iub':
+            # the two outputs are allocated in the (integer) space itself
+            return 'legacy-pspace-two-output-integer-space'
         return 'legacy-pspace-two-output-ufuncs'
     if sk == 'disc' and spec.get('out') is not None and spec['out']['kind'] == 'tensor' \
             and cat in ('raises', 'out-identity') and uf is not None and uf.nin == 1:
